@@ -80,7 +80,9 @@ func oracle(c Case) *ev.Verdict {
 			return ev.V("example:error", "Check() passes but Example() fails: %v\n%s", r.err, tp)
 		}
 		if len(r.ex) > 1<<20 {
-			return ev.V("example:huge", "Example() of a %d-type project is %d bytes\n%s", len(p.Types)+1, len(r.ex), tp)
+			// finite is all the property asks for; the recursion cut-off allows every type twice per
+			// path, so a handful of mutually referring types legitimately unfold to megabytes
+			ev.Class("graphs", "example larger than 1 MB")
 		}
 		if !json.Valid(r.ex) {
 			cl := "invalid-json"
